@@ -87,7 +87,9 @@ func c07Decoders(typ string) []decVariant {
 			decVariant{"delegation.FromDagCbor", "dagcbor", func(b []byte) (token.Token, error) { return wrapD(delegation.FromDagCbor(b)) }},
 			decVariant{"delegation.FromDagCborReader", "dagcbor", func(b []byte) (token.Token, error) { return wrapD(delegation.FromDagCborReader(bytes.NewReader(b))) }},
 			decVariant{"delegation.Decode", "dagcbor", func(b []byte) (token.Token, error) { return wrapD(delegation.Decode(b, dagcbor.Decode)) }},
-			decVariant{"delegation.DecodeReader", "dagcbor", func(b []byte) (token.Token, error) { return wrapD(delegation.DecodeReader(bytes.NewReader(b), dagcbor.Decode)) }},
+			decVariant{"delegation.DecodeReader", "dagcbor", func(b []byte) (token.Token, error) {
+				return wrapD(delegation.DecodeReader(bytes.NewReader(b), dagcbor.Decode))
+			}},
 			decVariant{"delegation.FromDagJson", "dagjson", func(b []byte) (token.Token, error) { return wrapD(delegation.FromDagJson(b)) }},
 			decVariant{"delegation.FromDagJsonReader", "dagjson", func(b []byte) (token.Token, error) { return wrapD(delegation.FromDagJsonReader(bytes.NewReader(b))) }},
 		)
@@ -101,7 +103,9 @@ func c07Decoders(typ string) []decVariant {
 			decVariant{"invocation.FromDagCbor", "dagcbor", func(b []byte) (token.Token, error) { return wrapI(invocation.FromDagCbor(b)) }},
 			decVariant{"invocation.FromDagCborReader", "dagcbor", func(b []byte) (token.Token, error) { return wrapI(invocation.FromDagCborReader(bytes.NewReader(b))) }},
 			decVariant{"invocation.Decode", "dagcbor", func(b []byte) (token.Token, error) { return wrapI(invocation.Decode(b, dagcbor.Decode)) }},
-			decVariant{"invocation.DecodeReader", "dagcbor", func(b []byte) (token.Token, error) { return wrapI(invocation.DecodeReader(bytes.NewReader(b), dagcbor.Decode)) }},
+			decVariant{"invocation.DecodeReader", "dagcbor", func(b []byte) (token.Token, error) {
+				return wrapI(invocation.DecodeReader(bytes.NewReader(b), dagcbor.Decode))
+			}},
 			decVariant{"invocation.FromDagJson", "dagjson", func(b []byte) (token.Token, error) { return wrapI(invocation.FromDagJson(b)) }},
 			decVariant{"invocation.FromDagJsonReader", "dagjson", func(b []byte) (token.Token, error) { return wrapI(invocation.FromDagJsonReader(bytes.NewReader(b))) }},
 		)
